@@ -142,7 +142,7 @@ PROPS = {
         families=[('floor', 400, 12000, 'small', 'large'), ('maint', 300, 6000, 'small', 'large')],
         rule='F_floor scenarios: layered production lines (sources incl. cycle 0 and finite budgets, handlers, processors with resources/callbacks/work orders, buffers with delay and capacity, batchers, decision gates, flow controllers, shared groups reached through several paths incl. nested and re-entrant use, sinks), scripted failures/shutdowns/restores/blocking/capacity changes/budget adjustments/one-shot offsets/mid-run rewiring/devices constructed mid-run with upstream devices named in the constructor, many single steps then runs, generated from VERIF_SEED (corpus/floor first); '
              'non-trivial = at least 8 parts received and 3 supplied; distinct by scenario text',
-        explanation='Records only appended; each record carries the state of its moment; level record = level; resource record = pool. Device/data-log link invariant for every exception-free reachable state incl. inside runs: source produced counter = number of its supplied-part records, last level record of a buffer = its level, the received value of a sink = the sum of the values in its received-part records (resource-manager and maintainer records proved to carry other labels). Exactly-one-record-per-occurrence for the other kinds, the part counter of a sink (parts vs hand-overs) and last-resource-record = pool over runs are decided by the record monitor and the lock-step on the full data log. PARTIAL for those.',
+        explanation='Records only appended; each record carries the state of its moment; level record = level; resource record = pool. Device/data-log link invariant for every exception-free reachable state incl. inside runs: source produced counter = number of its supplied-part records, last level record of a buffer = its level, the received value of a sink = the sum of the values in its received-part records, one received-part record per acceptance for every device (resource-manager and maintainer records proved to carry other labels). Exactly-one-record-per-occurrence for the other kinds, the part counter of a sink (parts vs hand-overs) and last-resource-record = pool over runs are decided by the record monitor and the lock-step on the full data log. PARTIAL for those.',
         assumptions=['well-posed layouts', 'the event trace (trace=True) is not part of the Coq model: it is checked on the implementation by the monitor (events taken off the queue while tracing vs. trace entries and exported file)']),
     'C20': dict(
         vfile='Props/C20.v', ties=['Tie/TieEnv.v', 'Tie/TieSys.v', 'Tie/TieFloor.v'],
@@ -263,9 +263,9 @@ LEVELS = {
         design_ref='DESIGN.md sections 0.3 and 8, C11', technique='Coq proof (world-level invariant over labelled world steps, using the C09 operation specifications; device/event-queue link invariant over a second step decomposition with compound steps) + lock-step correspondence + resource monitor',
         note='The idle clause is proved for exception-free histories (every driver status 0); after a Python exception the state is whatever the aborted action left and only the world-level invariant is claimed. Initial-state establishment from a decidable predicate validated by lock-step.'),
     'C15': dict(
-        text='PARTIAL. Machine-checked: the record list only grows during an action; receive/level/failure/resource records carry the state of their moment; level = stored parts; and the device/data-log link invariant for every exception-free reachable state including every state inside a run: a source counter equals the number of its supplied-part records, the last level record of a buffer carries its level, the received-value counter of a sink equals the sum of the values carried by its received-part records. The other exactly-one-record-per-occurrence clauses, the part counter of a sink and last-resource-record = pool are decided by the record monitor and lock-step over the full data log after every event.',
+        text='PARTIAL. Machine-checked: the record list only grows during an action; receive/level/failure/resource records carry the state of their moment; level = stored parts; and the device/data-log link invariant for every exception-free reachable state including every state inside a run: a source counter equals the number of its supplied-part records, the last level record of a buffer carries its level, the received-value counter of a sink equals the sum of the values carried by its received-part records, every device has exactly one received-part record per item it has taken in (ghost accept counter). The other exactly-one-record-per-occurrence clauses, the part counter of a sink and last-resource-record = pool are decided by the record monitor and lock-step over the full data log after every event.',
         design_ref='DESIGN.md sections 0.3 and 8, C15', technique='Coq proof (append-only log over all world steps, record payload lemmas, device/data-log link invariant over a step decomposition with counter+record compound steps) + lock-step correspondence on the full data log + record monitor',
-        note='Partial: received (non-sink)/produced/failure/work-order record counts, the sink part counter and resource records over runs are not theorems.'),
+        note='Partial: produced/failure/work-order record counts, the sink part counter and resource records over runs are not theorems.'),
     'C20': dict(
         text='Machine-checked Coq theorems: registry invariant for every operation sequence (registered with the most recently created system only, initialised at most once, first simulate initialises every registered asset exactly once, '
              'continuing never re-initialises, only the latest system simulates, look-up = filter by all given criteria); late creation equals early creation operation for operation for every class whose creation ends with the registration, '
